@@ -207,7 +207,7 @@ def run(ctx):
         part = recs[i:i + chunk]
         vf.write_ndjson(d + "/C04_trace.ndjson", [m for (m, _) in part])
         tv = vf.tlc(ctx, "TraceAdminAuth", "TraceAdminAuth.cfg", workers=1, timeout=1200, java_opts=["-Xmx6g"])
-        for bad in tv.tagged("BAD"):
+        for bad in {b["l"]: b for b in tv.tagged("BAD")}.values():
             m, o = part[bad["l"] - 1]
             c = byid[m["id"]]
             nbad += 1
@@ -226,7 +226,7 @@ def run(ctx):
                                    {0: "does not admit", 1: "admits", 2: "leaves open"}[bad["admit"]],
                                    o["status"], o["body"], " CANARY-LEAK" if o["leak"] else "",
                                    " STATE-CHANGED" if o["mut"] else "", o.get("head", "")))
-        for x in tv.tagged("DRIFT"):
+        for x in {b["l"]: b for b in tv.tagged("DRIFT")}.values():
             drift += 1
             if len(drift_samples) < 5:
                 m, o = part[x["l"] - 1]
